@@ -19,6 +19,7 @@ RULE = ( 'random structures (straight, bent, branched, unequal radii / segment l
 MIN_EVAL = dict (quick = 120, thorough = 2500)
 ANCHORS  = ['Mininec.nf_helper', 'Mininec.compute_near_field', 'Mininec.psi_near_field_56']
 ANCHORS_REQUIRED = ['Mininec.nf_helper', 'Mininec.compute_near_field', 'Mininec.psi_near_field_56']
+ANCHORS_MIN = {'Mininec.compute_near_field': 0.9, 'Mininec.nf_helper': 0.95}
 ASSUMPTIONS = [ 'reference quadrature Gauss-Legendre 48 x 4, convergence checked against 48 x 8 on every point (1e-6)'
               , 'the code uses 4.77783352 for eta / 8 pi^2 (= 4.7713...): constant 0.136 % offset in E, inside the 1 % budget'
               ]
